@@ -1,4 +1,5 @@
 import LcmProofs.SimPanel
+import LcmProofs.SpecRefine
 import LcmProps.Examples
 namespace Lcm
 
@@ -72,5 +73,36 @@ theorem C02_uses_next_period_array (m : Model) (P : Params) (V : List (Tensor Ex
   fun recs => recs.map fun r => (r.value, r.choices, r.states))
   == [[(.fin 22, [("d", 1)], [("s", 1)]), (.fin 42, [("d", 1)], [("s", 2)])],
      [(.fin 11, [("d", 1)], [("s", 1)]), (.fin 21, [("d", 1)], [("s", 2)])]]
+
+
+/-- **the reported value at the specification level**: the value `simulate` reports for an agent - on or off the
+grid - is the maximum, found by plain enumeration of *all declared choices in declaration order* (no groups, no
+segments, no arg-max chain), of the objective over the combinations that pass every filter and every constraint
+(`specAgent.best`, the quantity the harness' oracle `sim_spec` returns). Hypotheses: names pairwise distinct; and for
+models without a filter-restricted choice - where `simulate` evaluates no filter - the agent's state passes the
+filters (the implementation reports a choice for an agent in an excluded state as well; the property speaks about
+feasible choices "at the agent's current state", which such an agent does not have). -/
+theorem C02_value_is_plain_enumeration_max (m : Model) (P : Params) (t : Nat)
+    (next : Option (Tensor Ext × List (List (Name × Rat)))) (states : List (List (Name × Rat)))
+    (i : Nat) (hi : i < states.length)
+    (hnd : ((m.states ++ m.choices).map (·.1)).Nodup)
+    (hst : ((states.getD i []).map (·.1) ++ m.choices.map (·.1)).Nodup)
+    (hfs : (groups m).sC.isEmpty = true →
+      allTrue m P (toEnv (states.getD i []) ++ periodEnv t) (filterNames m) = some true)
+    (chRep : List (Name × Rat)) :
+    (specAgent m P (groups m) t next (states.getD i []) chRep).best
+      = (agentDecision m P (groups m) t next states i).value :=
+  specAgent_best_eq_value m P t next states i hi hnd hst hfs chRep
+
+-- the hypotheses are satisfiable and the two sides are the pinned number: F1 witness, agent in state s = 2, period 0
+example : ((Ex.f1Model.states ++ Ex.f1Model.choices).map (·.1)).Nodup := by decide
+#guard (groups Ex.f1Model).sC.isEmpty
+#guard allTrue Ex.f1Model Ex.f1Params (toEnv [("s", 2)] ++ periodEnv 0) (filterNames Ex.f1Model) == some true
+#guard (specAgent Ex.f1Model Ex.f1Params (groups Ex.f1Model) 0 (simNext Ex.f1Model Ex.f1Params (solve Ex.f1Model Ex.f1Params) 0)
+    [("s", 2)] [("d", 1)]).best == .fin 42
+#guard (specAgent Ex.consModel Ex.consParams (groups Ex.consModel) 0
+    (simNext Ex.consModel Ex.consParams (solve Ex.consModel Ex.consParams) 0) [("w", 3/2)] []).best
+  == (agentDecision Ex.consModel Ex.consParams (groups Ex.consModel) 0
+    (simNext Ex.consModel Ex.consParams (solve Ex.consModel Ex.consParams) 0) [[("w", 3/2)]] 0).value
 
 end Lcm
